@@ -179,6 +179,22 @@ func Locksets(fn *ssa.Function, entry lockState) map[ssa.Instruction]lockState {
 					} else {
 						delete(st, k)
 					}
+					break
+				}
+				// a helper that returns with a lock on (something reached from) one of its parameters held
+				// on every path: the lock is held after the call (lockBlock(b, hash))
+				if h := staticCallee(c); h != nil && h.Blocks != nil && isRepoFunc(h) {
+					for _, ak := range acquiresOnReturn(h) {
+						if ak.param < len(c.Call.Args) {
+							base := accessPath(c.Call.Args[ak.param])
+							st[LockKey{Root: base.Root, Path: joinPath(base.Path, ak.path)}] = true
+						}
+					}
+					break
+				}
+				// the unlock handed back by such a helper and called later: unlock := lockBlock(b, …); …; unlock()
+				if k, ok := boundUnlockTarget(c); ok {
+					delete(st, k)
 				}
 			case *ssa.Defer:
 				// deferred unlock: held until exit; deferred lock: ignored
@@ -424,4 +440,141 @@ func (o *lockOracle) forkJoinHolds(fn *ssa.Function, at ssa.Instruction, k LockK
 		return false, ""
 	}
 	return true, fmt.Sprintf("goroutine forked and joined (WaitGroup) by %s inside its critical section on %s", fnName(parent), k.String())
+}
+
+type acquireKey struct {
+	param int
+	path  string
+}
+
+var acquireMemo = map[*ssa.Function][]acquireKey{}
+var acquireBusy = map[*ssa.Function]bool{}
+
+// acquiresOnReturn: the locks, rooted at h's parameters, that h holds at every return and did not hold on entry.
+func acquiresOnReturn(h *ssa.Function) []acquireKey {
+	if v, ok := acquireMemo[h]; ok {
+		return v
+	}
+	if acquireBusy[h] {
+		return nil
+	}
+	acquireBusy[h] = true
+	defer delete(acquireBusy, h)
+	// cheap pre-check: h locks something itself
+	locks := false
+	for _, ci := range callsIn(h) {
+		if _, op := lockOp(ci); op == "lock" {
+			locks = true
+		}
+	}
+	if !locks {
+		acquireMemo[h] = nil
+		return nil
+	}
+	ls := Locksets(h, nil)
+	var held lockState
+	n := 0
+	for _, r := range returnsOf(h) {
+		// the state AFTER the instructions before the return = state recorded at the return
+		st := ls[r]
+		n++
+		if held == nil {
+			held = st.clone()
+		} else {
+			held = intersect(held, st)
+		}
+	}
+	// deferred unlocks release at exit
+	for _, ci := range callsIn(h) {
+		if d, isDefer := ci.(*ssa.Defer); isDefer {
+			if r, op := lockOp(d); op == "unlock" {
+				delete(held, accessPath(r))
+			}
+		}
+	}
+	var out []acquireKey
+	for k := range held {
+		if p, ok := k.Root.(*ssa.Parameter); ok && p.Parent() == h && n > 0 {
+			out = append(out, acquireKey{paramIndex(p), k.Path})
+		}
+	}
+	sort.Slice(out, func(i, j int) bool {
+		return out[i].param < out[j].param || (out[i].param == out[j].param && out[i].path < out[j].path)
+	})
+	acquireMemo[h] = out
+	return out
+}
+
+// boundUnlockTarget: c calls a function value that is the Unlock method value of a mutex reached
+// from a parameter of the helper that returned it: the lock key at the helper's call site.
+func boundUnlockTarget(c *ssa.Call) (LockKey, bool) {
+	if c.Call.IsInvoke() || staticCallee(c) != nil {
+		return LockKey{}, false
+	}
+	v := stripConv(c.Call.Value)
+	if u, ok := v.(*ssa.UnOp); ok && u.Op == token.MUL {
+		if al, ok := u.X.(*ssa.Alloc); ok {
+			if cv := cellValue(al); cv != nil {
+				v = stripConv(cv)
+			}
+		}
+	}
+	// directly a bound method value made here: mu.Unlock kept in a variable
+	if mc, ok := v.(*ssa.MakeClosure); ok {
+		if k, ok := unlockClosureKey(mc); ok {
+			return k, true
+		}
+		return LockKey{}, false
+	}
+	hc, ok := v.(*ssa.Call)
+	if !ok {
+		return LockKey{}, false
+	}
+	h := staticCallee(hc)
+	if h == nil || h.Blocks == nil {
+		return LockKey{}, false
+	}
+	var key *LockKey
+	for _, r := range returnsOf(h) {
+		mc, ok := stripConv(returnValues(r)[0]).(*ssa.MakeClosure)
+		if !ok {
+			return LockKey{}, false
+		}
+		k, ok := unlockClosureKey(mc)
+		if !ok {
+			return LockKey{}, false
+		}
+		p, isP := k.Root.(*ssa.Parameter)
+		if !isP || p.Parent() != h || paramIndex(p) >= len(hc.Call.Args) {
+			return LockKey{}, false
+		}
+		base := accessPath(hc.Call.Args[paramIndex(p)])
+		kk := LockKey{Root: base.Root, Path: joinPath(base.Path, k.Path)}
+		if key != nil && *key != kk {
+			return LockKey{}, false
+		}
+		key = &kk
+	}
+	if key == nil {
+		return LockKey{}, false
+	}
+	return *key, true
+}
+
+// unlockClosureKey: mc is the method value X.Unlock / X.RUnlock of a mutex: the key of X
+func unlockClosureKey(mc *ssa.MakeClosure) (LockKey, bool) {
+	f, ok := mc.Fn.(*ssa.Function)
+	if !ok || f.Synthetic == "" || len(mc.Bindings) != 1 {
+		return LockKey{}, false
+	}
+	for _, ci := range callsIn(f) {
+		if _, op := lockOp(ci); op == "unlock" {
+			return accessPath(mc.Bindings[0]), true
+		}
+		// promoted through an embedded mutex: the wrapper calls (*T).Unlock which is itself a wrapper
+		if cal := staticCallee(ci); cal != nil && (cal.Name() == "Unlock" || cal.Name() == "RUnlock") {
+			return accessPath(mc.Bindings[0]), true
+		}
+	}
+	return LockKey{}, false
 }
